@@ -24,8 +24,15 @@ type ncTP struct {
 	pad []int
 }
 
+func tenantOf(set attribute.Set) string {
+	if v, ok := set.Value("tenant"); ok {
+		return v.AsString()
+	}
+	return ""
+}
+
 // checkIdentities: what arrived at the SDK carries the identity it was requested with
-// (meter name / version / schema URL; instrument description and unit).
+// (meter name / version / schema URL / instrumentation attributes; instrument description and unit).
 func (w *world) checkIdentities(rm *metricdata.ResourceMetrics, res *result) {
 	type meta struct {
 		sc         scopeID
@@ -34,7 +41,7 @@ func (w *world) checkIdentities(rm *metricdata.ResourceMetrics, res *result) {
 	got := map[string]meta{}
 	for _, sm := range rm.ScopeMetrics {
 		for _, m := range sm.Metrics {
-			got[m.Name] = meta{scopeID{sm.Scope.Name, sm.Scope.Version, sm.Scope.SchemaURL}, m.Description, m.Unit}
+			got[m.Name] = meta{scopeID{sm.Scope.Name, sm.Scope.Version, sm.Scope.SchemaURL, tenantOf(sm.Scope.Attributes)}, m.Description, m.Unit}
 		}
 	}
 	descs := map[string]map[string]bool{}
@@ -78,7 +85,7 @@ func (w *world) checkSpanScopes(evs []evt, res *result) {
 	}
 	for _, s := range w.rec.Ended() {
 		is := s.InstrumentationScope()
-		if !check(s.Name(), scopeID{is.Name, is.Version, is.SchemaURL}) {
+		if !check(s.Name(), scopeID{is.Name, is.Version, is.SchemaURL, tenantOf(is.Attributes)}) {
 			return
 		}
 	}
